@@ -234,7 +234,7 @@ Section Oracles.
     { unfold at_bytes, st00. cbn [p_all p_pos p_lim]. split; [|split].
       - rewrite Hfile. unfold P, payload, enc_payload. rewrite <- !app_assoc. reflexivity.
       - rewrite HP. lia.
-      - reflexivity. }
+      - left. reflexivity. }
     rewrite (vis_at _ _ _ _ Hat0).
     rewrite (read_header_payload hdrdec) by assumption. cbn [N.eqb Pos.eqb].
     set (hl := ld_size (blen (enc_header (Some roots) 1))).
